@@ -390,7 +390,7 @@ class Check(core.PropertyCheck):
     MON = "Mon_DnsLayer"
     REQUIRED_WITNESSES = ("dns_request", "dns_response", "dns_error", "to_client_upstream", "to_client_addon",
                           "to_client_synth", "matching_reply", "id_reused", "tcp_segment", "malformed_prefix",
-                          "second_segmentation", "compared_multi_message_stream")
+                          "second_segmentation", "compared_multi_message_stream", "duplicate_reply_after_exchange")
     REQUIRED_ACTIONS = ("StartRun",)
     ASSUMPTIONS = (
         "hooks, the upstream connect and their completions are driven through the sans-io Driver (lib/vf/sansio.py); "
@@ -422,6 +422,11 @@ class Check(core.PropertyCheck):
         return {
             "udp": {**B, "Mode": "flow", "Trs": frozenset({"udp"}), "Ups": frozenset({True, False}),
                     "MaxQ": 2 if q else 3, "MaxR": 1 if q else 2, "MaxBad": 1},
+            # duplicate / late upstream replies after an exchange has completed
+            "udp2": {**B, "Mode": "flow", "Trs": frozenset({"udp"}), "Ups": frozenset({True}), "MaxQ": 2, "MaxR": 2,
+                     "MaxBad": 0, "Ids": frozenset({1}) if q else frozenset({1, 2}),
+                     "Qs": frozenset({"A"}) if q else frozenset({"A", "B"}),
+                     "Policies": frozenset({"none", "respond"})},
             "tcp": {**B, "Mode": "flow", "Ids": frozenset({1}) if q else frozenset({1, 2}),
                     "Trs": frozenset({"tcp"}), "Ups": frozenset({True}), "MaxQ": 2, "MaxR": 1,
                     "MaxBad": 1, "BadKinds": frozenset({"zero"}), "Qs": frozenset({"A"}) if q else frozenset({"A", "B"}),
@@ -431,17 +436,18 @@ class Check(core.PropertyCheck):
                     "MaxBad": 0, "Streams": streams, "SWhole": q},
         }
 
-    TAGS = ("udp", "tcp", "seg")
+    TAGS = ("udp", "udp2", "tcp", "seg")
 
     def model_runs(self, ctx):
         small = self._consts("quick")
         small["seg"] = self._consts(ctx.tier)["seg"]  # the segmentation model stays small: always dumped
         from concurrent.futures import ThreadPoolExecutor
 
-        with ThreadPoolExecutor(3) as ex:  # three independent single-worker TLC runs side by side
+        with ThreadPoolExecutor(4) as ex:  # four independent single-worker TLC runs side by side
             out = list(ex.map(lambda tag: ctx.model_check(self.MODEL, small[tag], dump=True, tag="_" + tag), self.TAGS))
         for tag, m in zip(self.TAGS, out):
             need = {"udp": ("ClientQuery", "UpstreamReply", "HookDone", "OpenDone", "ClientBad", "Finish"),
+                    "udp2": ("ClientQuery", "UpstreamReply", "HookDone"),
                     "tcp": ("CSeg", "SSeg", "ClientZero", "HookDone"), "seg": ("CSeg", "SSeg", "EndRun")}[tag]
             for a in need:
                 if not m.coverage.get(a):
@@ -458,7 +464,8 @@ class Check(core.PropertyCheck):
 
     def scenarios(self, ctx, models):
         rng = random.Random(ctx.seed + 27)
-        nwalk = {"udp": 600, "tcp": 400, "seg": 400} if ctx.quick else {"udp": 20000, "tcp": 12000, "seg": 6000}
+        nwalk = ({"udp": 600, "udp2": 400, "tcp": 400, "seg": 400} if ctx.quick else
+                 {"udp": 20000, "udp2": 8000, "tcp": 12000, "seg": 6000})
         seen = set()
 
         def emit(b, source):
@@ -470,7 +477,7 @@ class Check(core.PropertyCheck):
             seen.add(key)
             return sc
 
-        for tag, m in zip(self.TAGS, models[:3]):
+        for tag, m in zip(self.TAGS, models[:4]):
             g = m.graph
             for b in g.edge_cover(ctx.rng, max_len=40, tail=14) + g.random_walks(ctx.rng, nwalk[tag], 40):
                 sc = emit(b, "model")
